@@ -21,10 +21,52 @@ Open Scope Z_scope.
 Definition task := Z.
 Definition batch := list task.
 
+(* ---- what RemoveAll hands out, as far as executeTasks looks at it --------------------
+   TaskContainer is an exported interface: the value RemoveAll returns ("the batch") is an
+   [any] of whatever type the container likes - a slice for the Bulk/Chunk executors and the
+   sqlx/mon bulk inserters, an aggregate (struct, number, string, flag, pointer ...) for
+   containers that coalesce their tasks (stat.Metrics).  executeTasks hands the batch to
+   Execute iff hasTasks says so, and hasTasks looks at nothing but the reflect kind of the
+   value and, for the four collection kinds, its length. *)
+Inductive rkind :=
+| KNil                                   (* the untyped nil interface: tasks == nil *)
+| KArray | KChan | KMap | KSlice         (* the kinds hasTasks measures with Len() *)
+| KStruct | KInt | KString | KBool | KPtr | KOther.   (* "unknown type" (default branch) *)
+
+Record bval := mkBV
+  { bv_kind : rkind;
+    bv_len : Z;        (* reflect.Value.Len() for the collection kinds (0 otherwise) *)
+    bv_zero : bool }.  (* reflect.Value.IsZero(): hasTasks does NOT look at it *)
+
+Definition is_coll (k : rkind) : bool :=
+  match k with KArray | KChan | KMap | KSlice => true | _ => false end.
+
+(* (pe *PeriodicalExecutor).hasTasks *)
+Definition has_tasks (v : bval) : bool :=
+  match bv_kind v with
+  | KNil => false
+  | KArray | KChan | KMap | KSlice => 0 <? bv_len v
+  | _ => true          (* unknown type, let caller execute it *)
+  end.
+
 Record config := mkCfg
   { maxw : Z;          (* bulk: maxTasks (every weight 1); chunk: maxChunkSize *)
     interval : Z;      (* flush interval, in clock units *)
-    bad : list task    (* a callback whose batch contains one of these tasks panics *) }.
+    bad : list task;   (* a callback whose batch contains one of these tasks panics *)
+    runs : batch -> bool
+      (* does executeTasks call Execute for the batch that holds exactly these tasks?
+         For a container that renders a task list h as the Go value [sh h] this is
+         [has_tasks (sh h)] ([container_cfg]); the slice containers give [nonempty]. *) }.
+
+Definition nonempty (h : batch) : bool := match h with [] => false | _ => true end.
+
+(* a container described by how its RemoveAll renders the tasks it removes *)
+Definition container_cfg (mw iv : Z) (bd : list task) (sh : batch -> bval) : config :=
+  mkCfg mw iv bd (fun h => has_tasks (sh h)).
+
+(* bulkContainer / chunkContainer / dbInserter: a slice of the tasks (nil when nothing was added) *)
+Definition slice_shape (h : batch) : bval :=
+  mkBV KSlice (Z.of_nat (length h)) (negb (nonempty h)).
 
 Definition idleRound : Z := 10.
 
@@ -143,17 +185,14 @@ Definition panics (cfg : config) (h : batch) : bool :=
 Definition callback (cfg : config) (s : state) (h : batch) : state :=
   if panics cfg h then add_lost s h else add_executed s h.
 
-Definition nonempty (h : batch) : bool := match h with [] => false | _ => true end.
-
 (* one atomic action of Flush at program counter f *)
 Definition fstep (cfg : config) (s : state) (f : fpc) : option (state * fpc) :=
   match f with
   | FEnter => if barrier s then None else Some (set_wg s (wg s + 1), FRemove)
   | FRemove => Some (set_cont s [] 0, FExec (cont s))
-  | FExec h => match h with
-               | [] => Some (s, FDone false)
-               | _ => Some (callback cfg s h, FDone true)
-               end
+  | FExec h => (* executeTasks: ok := hasTasks(batch); if ok { RunSafe(Execute(batch)) } *)
+               if runs cfg h then Some (callback cfg s h, FDone true)
+               else Some (s, FDone false)
   | FDone ok => Some (set_wg s (wg s - 1), FRet ok)
   | FRet _ => None
   end.
@@ -241,11 +280,7 @@ Definition bstep (cfg : config) (s : state) (b : nat) (alt : bool) : option stat
       if barrier s then None else goto (set_wg s (wg s + 1)) (BDec h)
     | BDec h => goto (set_inflight s (inflight s - 1)) (BConfirm h)
     | BConfirm _ => None      (* rendezvous: performed by the receiving client's action *)
-    | BExec h =>
-      match h with
-      | [] => goto s BDone
-      | _ => goto (callback cfg s h) BDone
-      end
+    | BExec h => if runs cfg h then goto (callback cfg s h) BDone else goto s BDone
     | BDone => goto (set_wg s (wg s - 1)) (BSelect true (now s))
     | BTick f last =>
       match fstep cfg s f with
